@@ -311,6 +311,19 @@ def role_calls():
     roles = {"render": [], "join": [], "construct": [], "modify": [], "query": [], "cacheapi": []}
     # the cache API itself as a role, FAILING calls included (a size of the wrong type): an error path that leaves something behind
     # (a held lock, a half-swapped set of wrappers) shows in the paired thread of the same role and in every other role
+    # SPELLINGS vs shared derived objects: constructing never-seen spellings (leading C0/space runs are dropped by the parser) of a URL
+    # whose parts equal an object other threads obtained from a derivation (relative(), with_fragment(None), parent: handed out by the
+    # lru-cached part assembler) - interleaved with first reads of lazily split accessors on those derived objects
+    import itertools
+
+    roles["spellread"] = []
+    for t in ("/p1/x?q=1", "p2/y#f", "mailto:user@example.com", "?only=query", "/", "x-app:/p/q", "tel:+1"):
+        pre = itertools.count()
+        roles["spellread"].append((f"URL(<C0/space run #k> + {t!r})", lambda t=t, pre=pre: URL(" " * (next(pre) % 41) + "\x01" * (next(pre) % 23) + t)))
+        if t[0] in "/p?":
+            roles["spellread"].append((f"URL('http://h' + ...).relative() netloc reads for {t!r}",
+                                       lambda t=t: (lambda r_: (r_.raw_host, r_.explicit_port, r_.raw_user, r_.raw_password, r_.host_subcomponent, str(r_)))(URL("http://h/" + t.lstrip("/")).relative())))
+        roles["spellread"].append((f"URL({t!r}).with_fragment(None) netloc reads", lambda t=t: (lambda r_: (r_.raw_host, r_.port, r_.authority, r_.raw_user, str(r_)))(URL(t + ("" if "#" in t else "#zz")).with_fragment(None))))
     roles["cacheapi"] = [
         ("cache_clear()", lambda: yarl.cache_clear()), ("cache_info() keys", lambda: sorted(yarl.cache_info())),
         ("cache_configure(8, 8, 8)", lambda: yarl.cache_configure(idna_encode_size=8, idna_decode_size=8, encode_host_size=8)),
@@ -402,6 +415,10 @@ def run_roles(ctx):
     kinds = sorted(roles)
     old_si = sys.getswitchinterval()
     total = 0
+    from ..props.c08 import Monitor
+
+    mon = Monitor(ctx)
+    mon.install()
     try:
         for rd in range(rounds):
             sys.setswitchinterval([1e-6, 2e-5, 1e-4][rd % 3])
@@ -449,6 +466,7 @@ def run_roles(ctx):
             for ti, kind, label, got, want in mism:
                 ctx.fail("differs_from_sequential", {"round": rd, "thread": ti, "threads": nthreads, "part": "roles", "role": kind, "call": label},
                          f"role {kind} thread {ti}: {label} gave {str(got)[:160]} expected {str(want)[:160]}")
+            mon.check_all(lambda: {"round": rd, "threads": nthreads, "part": "roles", "roles": sorted({kind_of(ti) for ti in range(nthreads)})})
             total += sum(done)
             for kind in {kind_of(ti) for ti in range(nthreads)}:
                 ctx.ev(("roles", kind, nthreads, rd % 3))
